@@ -12,9 +12,10 @@ binary WITHOUT --force.
 """
 import json, os, re
 import vlib
-from vlib import cstr, clist, cbool
+from vlib import clist, cbool
 from common import proof_gate, proof_coverage
 import c13
+from c13 import cstr     # pool-aware: inside pool_begin/pool_defs every distinct string is defined once
 
 OVERLAY = os.path.join(vlib.VERIF, 'harness', 'overlay')
 CORPUS = os.path.join(vlib.VERIF, 'corpus', 'C14')
@@ -50,8 +51,11 @@ def git_term(r, g):
 
 def modelled(r):
     """workspaces with a symbolic link INSIDE the work tree are outside the model (its tree has one name per file): they
-    only go through the predicate"""
-    return not r['ws'].get('symlinks')
+    only go through the predicate.  So do workspaces with a submodule that keeps its own .git DIRECTORY: go-git's
+    Worktree.Status of the superproject fails on the first call ("open sub/.git: is a directory") and creates
+    .git/modules/<name> on the way, after which it succeeds -- what the status oracle answers depends on how often it was asked"""
+    ws = r['ws']
+    return not ws.get('symlinks') and 'dir' not in ((ws.get('git') or {}).get('submodules') or {}).values()
 
 
 def predicate(r):
@@ -109,17 +113,22 @@ def run_steps(ctx, replay_ws=None):
 
 
 def eval_cases(ctx, results, gits, name='Cases_C14', chunk=300):
+    """case files are evaluated side by side (Coq reads literals slowly): at least four shards, at most `chunk` cases each"""
+    from concurrent.futures import ThreadPoolExecutor
+    chunk = max(1, min(chunk, (len(results) + 3) // 4))
+    starts = list(range(0, len(results), chunk))
     g1, g2 = [], []
-    for i in range(0, len(results), chunk):
-        a, b = eval_cases_chunk(ctx, results[i:i + chunk], gits[i:i + chunk], '%s_%d' % (name, i // chunk))
-        g1 += [i + x for x in a]
-        g2 += [i + x for x in b]
+    with ThreadPoolExecutor(max_workers=4) as ex:
+        for i, (a, b) in zip(starts, ex.map(lambda i: eval_cases_chunk(ctx, results[i:i + chunk], gits[i:i + chunk], '%s_%d' % (name, i // chunk)), starts)):
+            g1 += [i + x for x in a]
+            g2 += [i + x for x in b]
     return g1, g2
 
 
 def eval_cases_chunk(ctx, results, gits, name):
-    v = ['From Regal Require Import Check.C14Check.', 'Open Scope N_scope.']
-    v.append('Definition gcs : list git_case := ' + clist(git_term(r, g) for r, g in zip(results, gits)) + '.')
+    c13.pool_begin()
+    body = 'Definition gcs : list git_case := ' + clist(git_term(r, g) for r, g in zip(results, gits)) + '.'
+    v = ['From Regal Require Import Check.C14Check.', 'Open Scope N_scope.'] + c13.pool_defs() + [body]
     v.append('Definition G1 := Eval vm_compute in failing repo_agrees 0 gcs.')
     v.append('Definition G2 := Eval vm_compute in failing git_agrees 0 gcs.')
     v.append('Print G1. Print G2.')
